@@ -904,6 +904,12 @@ func streamCont(o *Out, r *rand.Rand, n int, thorough bool) {
 		{"a = make([]int64, 3)\na[0] = 1\na[1] = 2\na[2] = 3\ntry {\na[0:3] = [7, 8, \"x\"]\n} catch e {\n}\na", "[]int64[int64:1 int64:2 int64:3]"},
 		{"a = make([]int64, 3)\na[0] = 1\na[1] = 2\na[2] = 3\ntry {\na[1:3] = [7, [8]]\n} catch e {\n}\na", "[]int64[int64:1 int64:2 int64:3]"},
 		{"b = [1, 2, 3]\nr = \"ok\"\ntry {\nb[1:3] = b[0:2]\nif b != [1, 1, 2] {\nr = \"not what copy gives\"\n}\n} catch e {\nif b != [1, 2, 3] {\nr = \"changed by a failed statement\"\n}\n}\nr", "string:" + hexOf("ok")},
+		// the result of a function is a value, also the IMPLICIT result of a body that ends in an expression statement: a store through its address
+		// does not reach the slot it was read from (as with `return a[0]`)
+		{"a = [1]\nf = func() { a[0] }\np = &f()\n*p = 5\na[0]", "int64:1"},
+		{"a = [1]\nf = func() { return a[0] }\np = &f()\n*p = 5\na[0]", "int64:1"},
+		{"t = make([]int64, 1)\nt[0] = 1\nfunc g() { t[0] }\np = &g()\n*p = 5\nt[0]", "int64:1"},
+		{"x = make(S)\nx.A = 1\nfunc g(a, b, c, d, e) { x.A }\np = &g(1, 2, 3, 4, 5)\n*p = 5\nx.A", "int64:1"},
 		// the two-value read of a missing key binds what the plain read gives (nil) and false - whatever the map's element type
 		{"m = make(map[string]int64)\nv, ok = m[\"nokey\"]\n[v, ok, m[\"nokey\"]]", "[]iface[nil bool:false nil]"},
 		{"m = make(map[string]string)\nm[\"a\"] = \"x\"\nv, ok = m[\"b\"]\nw, ok2 = m[\"a\"]\n[v, ok, w, ok2]", "[]iface[nil bool:false string:" + hexOf("x") + " bool:true]"},
